@@ -14,7 +14,8 @@ NoDev == {}
 TraceInit == tid \in 1..Len(Traces) /\ l = 1 /\ Init
 Ev == Traces[tid].events[l]
 IsEvent(name) == l <= Len(Traces[tid].events) /\ Ev.act = name /\ l' = l + 1 /\ UNCHANGED tid
-Logged == served' = << Ev.served[1], Ev.served[2], Ev.served[3] >>
+Logged == /\ served' = << Ev.served[1], Ev.served[2], Ev.served[3] >>
+          /\ ServesWhatWasAsked' /\ ScaledOnce'       \* invariants as guards (a violated INVARIANT would stop the whole batch)
 TConstruct == IsEvent("Construct") /\ Construct(Ev.d, Ev.p, Ev.f) /\ Logged
 TQuery     == IsEvent("Query") /\ Query(Ev.d, Ev.p) /\ Logged
 TRead      == IsEvent("Read") /\ Read /\ Logged
